@@ -302,7 +302,8 @@ def run(ctx):
             src = q.unwrap_into_iter(item[1]) if item[0] == 'next' else None
             whole = src is not None and is_param(src, 2)
             L = vb.cfg.loop_of(c.bb)
-            exits_ok = L is not None and all(k in ('exhausted', 'err', 'unreachable') for _, _, k in q.loop_exit_kinds(vb, L))
+            exits_ok = L is not None and all(k in ('exhausted', 'err', 'unreachable') for _, _, k in q.loop_exit_kinds(vb, L)) and \
+                all(vb.cfg.dominates(c.bb, x) for x, _ in L['back_edges'])      # and no `continue` bypasses the lookup
             # result -> ok_or_else -> ?
             prop = False
             for u in q.calls(vb, 'std::option::Option::ok_or_else'):
@@ -311,7 +312,7 @@ def run(ctx):
                     fates = q.result_fates(vb, u.dest['l'])
                     prop = bool(fates) and all(f[0] == 'try' for f in fates)
             ctx.inst('P5', 'validator', whole and exits_ok and prop, 'validate_indexed_pixels: looks up %s for every element of the pixel '
-                     'slice (%s), no early exit (%s), missing colour -> Err (%s)' % (show(at[1])[:60], whole, exits_ok, prop), c.span,
+                     'slice (%s), no early exit or skipped element (%s), missing colour -> Err (%s)' % (show(at[1])[:60], whole, exits_ok, prop), c.span,
                      key=vb.name + '|P5|scan')
         t = res(ctx.fx.body('asefile::palette::ColorPalette::color')).ret() if ctx.fx.body('asefile::palette::ColorPalette::color') else None
         if t is not None:
